@@ -578,6 +578,38 @@ def debug_slice(ctx):
             ctx.count('debug-logging slice')
 
 
+def strict_numpy_slice(ctx):
+    """exporters with numpy floating-point errors raised instead of warned (np.errstate(all='raise'), as a caller's
+    np.seterr would do) on regions that hold the pixels touching both celestial poles, the equator strip and RA 0:
+    every file must be complete and describe the region as in the default state"""
+    hp = c8.hp_()
+    tmp = ctx.tmpdir()
+    cases = [(1, [['N', 1, list(range(48))]])]
+    for m in (2, 3, 6, 9):
+        th = np.array([1e-9, np.pi - 1e-9, 1e-9, np.pi - 1e-9, np.pi / 2 + 0.004, 0.7])
+        ph = np.array([0.3, 2.0, 4.0, 5.5, 1e-7, 6.283])
+        pix = sorted(set(int(x) for x in hp.ang2pix(2 ** m, th, ph, nest=True)))
+        cases.append((m, [['N', m, pix]]))
+        cases.append((m, [['N', m, pix], ['D']]))
+    seen = set()
+    for k, (m, items) in enumerate(cases):
+        case = dict(m=m, items=items, env='numpy-errstate-raise')
+        try:
+            with np.errstate(all='raise'):
+                _, probs = export_checks(ctx, m, items, tmp, 'strict%d' % k, do_reg=True, via_mimas=(k % 2 == 1))
+        except HistoryError:
+            continue
+        except Exception as e:
+            probs = [('export-raises', 'export raised %s: %s' % (type(e).__name__, e))]
+        for what, detail in probs:
+            if what not in seen:
+                seen.add(what)
+                ctx.fail('spec', case, "[np.errstate(all='raise')] " + detail,
+                         dict(site='regions.Region', what=what, env='numpy-errstate-raise', level_maxdepth_lost=False))
+        ctx.count('numpy-errstate slice')
+        ctx.case(case, nontrivial_key=None if probs else 'strict m%d %s' % (m, json.dumps(items)))
+
+
 def run(ctx):
     common.use_repo()
     translator_selfcheck(ctx)
@@ -586,6 +618,7 @@ def run(ctx):
     run_cases(ctx, cases, not ctx.quick)
     run_file_scenarios(ctx, 25 if ctx.quick else 200)
     debug_slice(ctx)
+    strict_numpy_slice(ctx)
 
 
 def search(ctx):
@@ -598,6 +631,7 @@ def search(ctx):
         run_cases(ctx, gen_cases(ctx, 60) + edge_regions(ctx, False) + coincidence_regions(8, 6), False)
         run_file_scenarios(ctx, 25)
         debug_slice(ctx)
+        strict_numpy_slice(ctx)
     finally:
         ctx.driver_ok = saved
 
@@ -606,7 +640,8 @@ def replay(ctx, rec):
     import contextlib
     common.use_repo()
     c = rec['case']
-    with (c8.debug_logging() if c.get('env') == 'logging-debug' else contextlib.nullcontext()):
+    with (c8.debug_logging() if c.get('env') == 'logging-debug' else
+          np.errstate(all='raise') if c.get('env') == 'numpy-errstate-raise' else contextlib.nullcontext()):
         replay_inner(ctx, rec, c)
 
 
